@@ -460,6 +460,10 @@ def pack_into_passes(nng, arch, verbose_packing=False):
                 or next_op.original_type == Op.Transpose
             ):
                 return False
+            # A 16-bit TANH / SIGMOID is executed as the activation function of its pass: it cannot share the pass with
+            # another activation
+            if curr_op.type in (Op.Tanh, Op.Sigmoid) and (next_op.activation is not None or next_op.type in activation_ops):
+                return False
             # Nor can curr_op be packed with next_op if it only reads a slice of next_op's ofm
             if inp == curr_op.ifm and curr_op.read_offsets[0] is not None:
                 return False
